@@ -1030,7 +1030,9 @@ static size_t dstuVerify_deep(size_t n, size_t f_deep, size_t ec_d,
 	size_t ec_deep)
 {
 	return O_OF_W(5 * n) + 
-		ecAddMulA_deep(n, ec_d, ec_deep, 2, n, n);
+		utilMax(2,
+			ec2IsOnA_deep(n, f_deep),
+			ecAddMulA_deep(n, ec_d, ec_deep, 2, n, n));
 }
 
 err_t dstuVerify(const dstu_params* params, size_t ld, const octet hash[], 
@@ -1072,9 +1074,10 @@ err_t dstuVerify(const dstu_params* params, size_t ld, const octet hash[],
 	stack = s + ec->f->n;
 	// шаг 4: проверить params
 	// шаг 5: проверить pubkey
-	// [минимальная проверка принадлежности координат базовому полю]
+	// [координаты принадлежат базовому полю, точка лежит на кривой]
 	if (!qrFrom(x, pubkey, ec->f, stack) || 
-		!qrFrom(y, pubkey + ec->f->no, ec->f, stack))
+		!qrFrom(y, pubkey + ec->f->no, ec->f, stack) ||
+		!ec2IsOnA(x, ec, stack))
 	{
 		dstuEcClose(ec);
 		return ERR_BAD_PUBKEY;
